@@ -211,6 +211,9 @@ class PseudoOperand(Operand):
                 self.value = DirectNumericValue(self.value.int)
 
     def resolve_symbols(self, symbol_table):
+        if self.instruction.mnemonic in ["FCB", "FDB", "RMB", "ORG"]:
+            if self.value.is_symbol() or self.value.is_expression():
+                self.value = self.value.resolve(symbol_table)
         return self
 
     def translate(self):
@@ -237,6 +240,8 @@ class PseudoOperand(Operand):
             )
 
         if self.instruction.mnemonic == "RMB":
+            if not self.value.is_numeric() or self.value.is_negative():
+                raise OperandTypeError("[{}] is not a number of bytes to reserve".format(self.operand_string))
             return CodePackage(
                 additional=NumericValue(0, size_hint=self.value.int*2),
                 size=self.value.int,
@@ -244,6 +249,8 @@ class PseudoOperand(Operand):
             )
 
         if self.instruction.mnemonic == "ORG":
+            if not self.value.is_numeric() or self.value.is_negative():
+                raise OperandTypeError("[{}] is not an address".format(self.operand_string))
             return CodePackage(address=self.value)
 
         if self.instruction.mnemonic == "FCC":
